@@ -47,6 +47,17 @@ def ntasks(p):
     return 1 + p.count('(')
 
 
+FIXED = [
+    ('S2:local-priority-fifo:3:w(w);U;F;R;F;P', 'S:33:3 U F R F P', [(2, 3, 'w(w)', [])]),
+    ('S1:static:5:w;F;P;S3:shared-priority:6:(w)(w);T(wy)w;W;f;P', 'S:19:5 F P S:55:6 T:2 W tF P',
+     [(1, 5, 'w', []), (3, 6, '(w)(w)', ['(wy)w', 'F'])]),
+]
+
+# documented preconditions (init_runtime.hpp) per harness op: which model phases (before the call) satisfy them
+DOC_PRE = {'S': 'N', 'P': 'RS', 'B': 'RS', 'F': 'RS', 'f': 'RS', 'W': 'RS', 'w': 'RS', 'U': 'RS', 'R': 'RS',
+           'tU': '', 'tR': '', 'tP': ''}
+
+
 class Hist:
     """one generated history; python only mirrors enough state to avoid calls that would block forever"""
 
@@ -229,6 +240,22 @@ def run(ctx):
             h.hist_str = lambda h=h: h._hist
             h.in_lines = lambda seed, h=h: h._in
             hists.append(h)
+    # fixed histories: the witness of C05_documented_preconditions_refuted and a plain restart
+    for k, (hs, api, sims) in enumerate(FIXED):
+        class H1:
+            pass
+        h = H1()
+        h.id = 'hfix%d' % k
+        h.seed = ctx.seed * 100000 + 90000 + k
+        h.kinds = {'fixed'}
+        h.cfgs = []
+        h.sims = [('%s.%d' % (h.id, j), w, res, e, subs) for j, (w, res, e, subs) in enumerate(sims)]
+        h._hist, h._api = hs, api
+        h.hist_str = lambda h=h: h._hist
+        h.in_lines = lambda seed, h=h: ['IN API %s %s' % (h.id, h._api)] + [
+            'IN SIM %s w=%d res=%d seed=%d entry=%s subs=%s' % (i, w, r_, seed, e, '|'.join(sb) if sb else '-')
+            for (i, w, r_, e, sb) in h.sims]
+        hists.append(h)
     n = 60 if ctx.tier == 'quick' else 1500
     rng = random.Random(ctx.seed * 7919 + 17)
     for i in range(n):
@@ -245,6 +272,7 @@ def run(ctx):
     if rc != 0:
         r.hits.append(Hit('tie', 'C05:model_driver', 'model driver failed rc=%d: %s' % (rc, mout[-500:]), {}))
     mapi = {x.split(' ')[2]: x for x in mouts if x.startswith('OUT API ')}
+    mph = {x.split(' ')[1]: x.split(' ')[2].split(',') for x in mlines if x.startswith('PH ') and len(x.split(' ')) > 2}
     for x in mouts:
         if 'model-did-not-finish' in x or 'MODEL-MONITOR-FAILED' in x:
             r.hits.append(Hit('model', 'C05:model_sim', 'the model run of an incarnation failed its own monitor: ' + x, {'line': x}))
@@ -287,6 +315,24 @@ def run(ctx):
             kind = p[2] if len(p) > 2 else 'unknown'
             r.hits.append(Hit('monitor', 'C05:' + kind, 'runtime life cycle: %s (%s) in history %s' % (kind, p[3] if len(p) > 3 else '', h.hist_str()[:300]),
                               dict(rp, observed=m, tail=lines[-12:])))
+        ph = mph.get(hid)
+        api_line = [x for x in outs if x.startswith('OUT API ')]
+        if ph and api_line:
+            obs = api_line[0].split('resps=')[1].split(',')
+            before = ['N'] + ph[:-1]
+            for o, a, b in zip(h.hist_str().split(';'), obs, before):
+                key = o if o in DOC_PRE else o[0]
+                if key not in DOC_PRE:
+                    continue
+                doc_ok = b in DOC_PRE[key]
+                if doc_ok and a == 'E':
+                    r.hits.append(Hit('monitor', 'C05:doc_pre:%s:%s' % (key, b),
+                                      'call %s respects its documented precondition (phase %s) but was rejected with invalid_status in history %s'
+                                      % (key, b, h.hist_str()[:300]), dict(rp, op=o, phase=b)))
+                if not doc_ok and a != 'E':
+                    r.hits.append(Hit('monitor', 'C05:pre_not_enforced:%s:%s' % (key, b),
+                                      'call %s violates its documented precondition (phase %s) but answered %s in history %s'
+                                      % (key, b, a, h.hist_str()[:300]), dict(rp, op=o, phase=b)))
         if not ended and not mons:
             last = [x for x in lines if x.startswith('RESP ')][-1:] or ['(no op completed)']
             r.hits.append(Hit('monitor', 'C05:crash', 'harness process died (rc=%d) after %s in history %s: %s' % (rc, last[0], h.hist_str()[:300], out[-400:]),
